@@ -360,6 +360,13 @@ func runC15(rep *TReport, raw json.RawMessage) {
 				spec.Scopes = []string{"a"}
 			case "not_covered":
 				spec.Scopes = []string{"zz"}
+			case "key_scopeless", "key_scopeless_none": // the key's registration names no scope
+				ks := w.Mem.IssuerPublicKeys["iss-1"].KeysBySub["sub-1"].Keys["kid-1"]
+				ks.Scopes = nil
+				w.Mem.IssuerPublicKeys["iss-1"].KeysBySub["sub-1"].Keys["kid-1"] = ks
+				if f("scope") == "key_scopeless" {
+					spec.Scopes = []string{"a"}
+				}
 			}
 			switch f("client") {
 			case "authenticated":
